@@ -1,5 +1,6 @@
 import ZV.Model.C09
 import ZV.Proofs.C09
+import ZV.Proofs.C09IP
 /-!
   C09 — hostname verification follows the documented matching rules.
 
@@ -12,7 +13,13 @@ import ZV.Proofs.C09
   * `match_iff_spec`      matchHostnames ↔ label-wise rule (`MatchSpec`);
   * `verifyHostname_iff`  VerifyHostname accepts ↔ `HostSpec` (the property's sentence);
   * `cn_only_without_san` the common name is irrelevant when a SAN extension is present
-                          (and the DNS SANs are irrelevant when it is absent).
+                          (and the DNS SANs are irrelevant when it is absent);
+  * `parseIP_spec`        the model of `net.ParseIP` accepts exactly the IP literals of the grammar
+                          `IPLiteral` (dotted quad `DottedQuad`, IPv6 forms `V6Spec`; both defined in
+                          `ZV.Proofs.C09IPv4/C09IPv6/C09IP` without reference to the model) and returns
+                          exactly their value — so `verifyHostname_iff_literal` states the property's
+                          sentence without mentioning `parseIP` at all;
+  * `non_ip_charset`, `parse_injective_on_quads`, … the corollaries about IP literals used by the property.
 -/
 namespace ZV.C09
 
@@ -46,7 +53,9 @@ def SameAddr (ip x : List UInt8) : Prop := x = ip ∨ (x.length = 4 ∧ ip = v4I
 
 def HasSAN (c : Cert) : Prop := oidSAN ∈ c.extOids
 
-/-- The property's sentence.  `parseIP` is the (trusted, T2-validated) model of `net.ParseIP`. -/
+/-- The property's sentence, with "is an IP literal" expressed through the model `parseIP` of
+    `net.ParseIP`; `HostSpecLit` below says the same with the declarative grammar `IPLiteral`
+    (`parseIP_spec` proves the two agree). -/
 def HostSpec (c : Cert) (h : Str) : Prop :=
   ∃ cand, Candidate h cand ∧
     ((∃ ip, parseIP cand = some ip ∧ ∃ x ∈ c.ipAddresses, SameAddr ip x) ∨
@@ -377,6 +386,185 @@ theorem ip_literal_only_ip_sans (c : Cert) (h : Str) (ip : List UInt8)
   · rintro ⟨x, hx, hs⟩
     rw [if_pos (List.any_eq_true.mpr ⟨x, hx, (ipEqual_iff ip x (parseIP_length _ _ hip)).mpr hs⟩)]
 
+
+/-! ### net.ParseIP: the model against a declarative grammar -/
+
+/-- An IPv4 field has one to three digits (a consequence of "no leading zero, value ≤ 255"). -/
+theorem octet_length (f : Str) (v : Nat) (h : IsOctet f v) : 1 ≤ f.length ∧ f.length ≤ 3 := by
+  refine ⟨?_, h.length_le⟩
+  have := h.ne
+  cases f with
+  | nil => exact absurd rfl this
+  | cons _ _ => simp
+
+/-- IPv4, both directions: the field loop returns `[a, b, c, d]` exactly when the string is four
+    decimal fields separated by '.', each without a leading zero (unless it is "0") and ≤ 255,
+    with these values. -/
+theorem parseIPv4Fields_spec (s : Str) (a b c d : UInt8) :
+    parseIPv4Fields s = some [a, b, c, d] ↔ DottedQuad s a b c d :=
+  parseIPv4Fields_iff s a b c d
+
+/-- `net.ParseIP` on strings without ':' : the result is the IPv4-mapped form of `a.b.c.d`
+    exactly when the string is the dotted quad with these values. -/
+theorem parseIP_dotted_quad_iff (s : Str) (a b c d : UInt8) :
+    (parseIP s = some (v4InV6Prefix ++ [a, b, c, d]) ∧ (58 : UInt8) ∉ s) ↔ DottedQuad s a b c d :=
+  parseIP_v4_iff' s a b c d
+
+/-- every dotted quad parses, to the IPv4-mapped address of its four values -/
+theorem parseIP_of_dotted_quad (s : Str) (a b c d : UInt8) (h : DottedQuad s a b c d) :
+    parseIP s = some (v4InV6Prefix ++ [a, b, c, d]) :=
+  ((parseIP_v4_iff' s a b c d).mpr h).1
+
+-- the side condition "no ':'" of `parseIP_dotted_quad_iff` is necessary: "::ffff:1.2.3.4" also
+-- parses to the IPv4-mapped address 1.2.3.4 and is not a dotted quad
+example : parseIP [58, 58, 102, 102, 102, 102, 58, 49, 46, 50, 46, 51, 46, 52] =
+    some (v4InV6Prefix ++ [1, 2, 3, 4]) := by
+  refine (parseIP_iff_literal _ _).mpr (Or.inr (Or.inr ⟨[], [102, 102, 102, 102, 58, 49, 46, 50, 46, 51, 46, 52],
+    [], groupBytes 65535 ++ [1, 2, 3, 4], rfl, Or.inl ⟨rfl, rfl⟩, Or.inr ⟨true, ?_⟩, by decide, by decide⟩))
+  exact V6Seq.cons (g := [102, 102, 102, 102]) ⟨by simp, by simp, by simp [IsHexCh], by decide⟩
+    (V6Seq.quad ((parseIPv4Fields_iff _ 1 2 3 4).mp (by decide)))
+
+/-- every IPv4 address has a dotted-quad text (and `parseIP` reads it back) -/
+theorem dotted_quad_exists (a b c d : UInt8) :
+    ∃ s, DottedQuad s a b c d ∧ parseIP s = some (v4InV6Prefix ++ [a, b, c, d]) := by
+  obtain ⟨s, hs⟩ := DottedQuad.exists a b c d
+  exact ⟨s, hs, parseIP_of_dotted_quad s a b c d hs⟩
+
+/-- IPv6, both directions: `parseIPv6` accepts exactly the forms of `V6Spec` — eight 16-bit
+    groups of one to four hex digits separated by ':', the last two optionally written as a dotted
+    quad, at most one "::" standing for one or more zero groups, no zone — with exactly the bytes
+    the form denotes. -/
+theorem parseIPv6_spec (s : Str) (ip : List UInt8) : parseIPv6 s = some ip ↔ V6Spec s ip :=
+  parseIPv6_iff s ip
+
+/-- **`net.ParseIP`** accepts exactly the IP literals and returns exactly their value. -/
+theorem parseIP_spec (s : Str) (ip : List UInt8) : parseIP s = some ip ↔ IPLiteral s ip :=
+  parseIP_iff_literal s ip
+
+/-- the grammar is unambiguous in value, and every literal denotes 16 bytes -/
+theorem ipLiteral_functional (s : Str) (ip ip' : List UInt8) (h : IPLiteral s ip) (h' : IPLiteral s ip') :
+    ip = ip' ∧ ip.length = 16 := by
+  have e := (parseIP_iff_literal s ip).mpr h
+  have e' := (parseIP_iff_literal s ip').mpr h'
+  rw [e] at e'
+  exact ⟨by simpa using e', parseIP_length s ip e⟩
+
+/-- the exact result for the fully expanded eight-group form -/
+theorem parseIP_eight_groups (g1 g2 g3 g4 g5 g6 g7 g8 : Str) (v1 v2 v3 v4 v5 v6 v7 v8 : Nat)
+    (h1 : IsHexGroup g1 v1) (h2 : IsHexGroup g2 v2) (h3 : IsHexGroup g3 v3) (h4 : IsHexGroup g4 v4)
+    (h5 : IsHexGroup g5 v5) (h6 : IsHexGroup g6 v6) (h7 : IsHexGroup g7 v7) (h8 : IsHexGroup g8 v8) :
+    parseIP (g1 ++ 58 :: (g2 ++ 58 :: (g3 ++ 58 :: (g4 ++ 58 :: (g5 ++ 58 :: (g6 ++ 58 :: (g7 ++ 58 :: g8))))))) =
+      some (groupBytes v1 ++ (groupBytes v2 ++ (groupBytes v3 ++ (groupBytes v4 ++ (groupBytes v5 ++
+        (groupBytes v6 ++ (groupBytes v7 ++ groupBytes v8))))))) := by
+  refine (parseIP_iff_literal _ _).mpr (Or.inr (Or.inl ⟨false, ?_, by simp [groupBytes]⟩))
+  exact .cons h1 (.cons h2 (.cons h3 (.cons h4 (.cons h5 (.cons h6 (.cons h7 (.one h8)))))))
+
+/-- the value of a group is a 16-bit number, so `groupBytes` loses nothing -/
+theorem hexGroup_lt (g : Str) (v : Nat) (h : IsHexGroup g v) : v < 65536 :=
+  h.val_lt
+
+/-- Only hex digits, ':' and '.' occur in IP literals: a string containing any other byte
+    (a zone '%', a bracket, a space, a letter beyond 'f', a non-ASCII byte …) is never one. -/
+theorem non_ip_charset (s : Str) (h : ∃ x ∈ s, ¬ IPChar x) : parseIP s = none := by
+  obtain ⟨x, hx, hn⟩ := h
+  cases hp : parseIP s with
+  | none => rfl
+  | some ip => exact absurd (((parseIP_iff_literal s ip).mp hp).chars x hx) hn
+
+/-- in particular zoned addresses are never accepted -/
+theorem zone_never_ip (s : Str) (h : (37 : UInt8) ∈ s) : parseIP s = none :=
+  non_ip_charset s ⟨37, h, fun hc => hc.ne_pct rfl⟩
+
+/-- Hosts whose (bracket-stripped) text contains a byte outside `[0-9a-fA-F:.]` are decided
+    by the DNS rules alone. -/
+theorem verifyHostname_non_ip (c : Cert) (h : Str) (hx : ∃ x ∈ candidateIP h, ¬ IPChar x) :
+    verifyHostname c h = .ok .accept ↔
+      ((HasSAN c ∧ ∃ d ∈ c.dnsNames, MatchSpec (lower d) (lower h)) ∨
+       (¬ HasSAN c ∧ MatchSpec (lower c.commonName) (lower h))) := by
+  have hnone := non_ip_charset _ hx
+  rw [verifyHostname_iff]
+  constructor
+  · rintro ⟨cand, hc, hspec⟩
+    have := (candidate_iff _ _).mp hc
+    subst this
+    rcases hspec with ⟨ip, hip, _⟩ | ⟨_, hdns⟩
+    · rw [hnone] at hip; cases hip
+    · exact hdns
+  · intro hdns
+    exact ⟨candidateIP h, (candidate_iff _ _).mpr rfl, Or.inr ⟨hnone, hdns⟩⟩
+
+/-- the text of a dotted quad is determined by its value (no leading zeros) … -/
+theorem dotted_quad_text_unique (s s' : Str) (a b c d : UInt8)
+    (h : DottedQuad s a b c d) (h' : DottedQuad s' a b c d) : s = s' :=
+  h.text_unique h'
+
+/-- … hence `net.ParseIP` is injective on dotted quads. -/
+theorem parse_injective_on_quads (s s' : Str) (a b c d a' b' c' d' : UInt8)
+    (h : DottedQuad s a b c d) (h' : DottedQuad s' a' b' c' d') (he : parseIP s = parseIP s') : s = s' := by
+  rw [parseIP_of_dotted_quad s a b c d h, parseIP_of_dotted_quad s' a' b' c' d' h'] at he
+  simp only [Option.some.injEq] at he
+  have := List.append_cancel_left he
+  simp only [List.cons.injEq, and_true] at this
+  obtain ⟨rfl, rfl, rfl, rfl⟩ := this
+  exact h.text_unique h'
+
+/-- a dotted quad carries no brackets: stripping leaves it unchanged -/
+theorem candidateIP_of_quad (h : Str) (a b c d : UInt8) (hq : DottedQuad h a b c d) : candidateIP h = h := by
+  unfold candidateIP
+  rw [if_neg]
+  rintro ⟨_, hhd, _⟩
+  obtain ⟨f1, f2, f3, f4, rfl, o1, _⟩ := hq
+  obtain ⟨x, t, rfl, hx⟩ := o1.head_dec
+  simp only [List.cons_append, List.head?_cons, Option.some.injEq] at hhd
+  subst hhd
+  simp [IsDec] at hx
+
+/-- `[m]` (with `m` non-empty) is stripped to `m` -/
+theorem candidateIP_bracketed (m : Str) (hm : m ≠ []) : candidateIP (91 :: (m ++ [93])) = m :=
+  ((candidate_iff _ _).mp (Candidate.bracketed m hm)).symm
+
+/-- Bracket stripping followed by IP parsing is injective on canonical dotted quads: two hosts
+    (bracketed or not) whose stripped texts are dotted quads denote the same address only if the
+    stripped texts are equal … -/
+theorem candidate_parse_injective (h h' : Str) (a b c d a' b' c' d' : UInt8)
+    (hq : DottedQuad (candidateIP h) a b c d) (hq' : DottedQuad (candidateIP h') a' b' c' d')
+    (he : parseIP (candidateIP h) = parseIP (candidateIP h')) : candidateIP h = candidateIP h' :=
+  parse_injective_on_quads _ _ a b c d a' b' c' d' hq hq' he
+
+/-- … and two unbracketed dotted-quad hosts only if they are the same host string. -/
+theorem host_quad_injective (h h' : Str) (a b c d a' b' c' d' : UInt8)
+    (hq : DottedQuad h a b c d) (hq' : DottedQuad h' a' b' c' d')
+    (he : parseIP (candidateIP h) = parseIP (candidateIP h')) : h = h' := by
+  rw [candidateIP_of_quad h a b c d hq, candidateIP_of_quad h' a' b' c' d' hq'] at he
+  exact parse_injective_on_quads _ _ a b c d a' b' c' d' hq hq' he
+
+/-- The property's sentence with "IP literal" given by the declarative grammar (no model
+    function of `net.ParseIP` occurs in it). -/
+def HostSpecLit (c : Cert) (h : Str) : Prop :=
+  ∃ cand, Candidate h cand ∧
+    ((∃ ip, IPLiteral cand ip ∧ ∃ x ∈ c.ipAddresses, SameAddr ip x) ∨
+     ((∀ ip, ¬ IPLiteral cand ip) ∧
+       ((HasSAN c ∧ ∃ d ∈ c.dnsNames, MatchSpec (lower d) (lower h)) ∨
+        (¬ HasSAN c ∧ MatchSpec (lower c.commonName) (lower h)))))
+
+/-- `VerifyHostname` accepts exactly when the host is (optionally bracketed) an IP literal of the
+    grammar whose address equals an IP SAN, or is not an IP literal and matches by the DNS rules. -/
+theorem verifyHostname_iff_literal (c : Cert) (h : Str) :
+    verifyHostname c h = .ok .accept ↔ HostSpecLit c h := by
+  rw [verifyHostname_iff]
+  unfold HostSpec HostSpecLit
+  constructor
+  · rintro ⟨cand, hc, hspec⟩
+    refine ⟨cand, hc, ?_⟩
+    rcases hspec with ⟨ip, hip, hx⟩ | ⟨hnone, hdns⟩
+    · exact Or.inl ⟨ip, (parseIP_iff_literal _ _).mp hip, hx⟩
+    · exact Or.inr ⟨(parseIP_none_iff _).mp hnone, hdns⟩
+  · rintro ⟨cand, hc, hspec⟩
+    refine ⟨cand, hc, ?_⟩
+    rcases hspec with ⟨ip, hip, hx⟩ | ⟨hnone, hdns⟩
+    · exact Or.inl ⟨ip, (parseIP_iff_literal _ _).mpr hip, hx⟩
+    · exact Or.inr ⟨(parseIP_none_iff _).mpr hnone, hdns⟩
+
 /-! ### the hypotheses / specifications are inhabited (non-vacuity) -/
 
 -- "*.a" matches "b.a." : labels ["*","a"] vs ["b","a"], trailing dot of the host ignored
@@ -395,5 +583,34 @@ example : ¬ HasSAN { extOids := [[2, 5, 29, 15]], dnsNames := [], ipAddresses :
 
 -- "[1.2.3.4]" is a bracketed IP literal
 example : parseIP (candidateIP [91, 49, 46, 50, 46, 51, 46, 52, 93]) = some (v4InV6Prefix ++ [1, 2, 3, 4]) := by decide
+
+-- "255" is an octet, "1.2.3.4" a dotted quad, "1f" a group
+example : IsOctet [50, 53, 53] 255 :=
+  ⟨by simp, by simp [IsDec], by simp, by decide, by decide⟩
+
+example : DottedQuad [49, 46, 50, 46, 51, 46, 52] 1 2 3 4 :=
+  ⟨[49], [50], [51], [52], rfl,
+    ⟨by simp, by simp [IsDec], by simp, by decide, by decide⟩,
+    ⟨by simp, by simp [IsDec], by simp, by decide, by decide⟩,
+    ⟨by simp, by simp [IsDec], by simp, by decide, by decide⟩,
+    ⟨by simp, by simp [IsDec], by simp, by decide, by decide⟩⟩
+
+example : IsHexGroup [49, 102] 31 := ⟨by simp, by simp, by simp [IsHexCh], by decide⟩
+
+-- "1::" and "::1.2.3.4" are IPv6 forms
+example : V6Spec [49, 58, 58] ([0, 1] ++ List.replicate 14 0) :=
+  Or.inr ⟨[49], [], [0, 1], [], rfl,
+    Or.inr (V6Seq.one (v := 1) ⟨by simp, by simp, by simp [IsHexCh], by decide⟩),
+    Or.inl ⟨rfl, rfl⟩, by decide, by decide⟩
+
+example : IPLiteral [49, 46, 50, 46, 51, 46, 52] (v4InV6Prefix ++ [1, 2, 3, 4]) :=
+  (parseIP_spec _ _).mp (by decide)
+
+-- a host with a byte outside [0-9a-fA-F:.] ("a.example")
+example : ∃ x ∈ candidateIP [97, 46, 101, 120], ¬ IPChar x :=
+  ⟨120, by decide, by simp [IPChar, IsHexCh]⟩
+
+example : DottedQuad (candidateIP [91, 49, 46, 50, 46, 51, 46, 52, 93]) 1 2 3 4 :=
+  (parseIPv4Fields_spec _ 1 2 3 4).mp (by decide)
 
 end ZV.C09
